@@ -7,6 +7,7 @@ def reg(pid, text, note, technique, design_ref, category="proof"):
 
 
 HOOK_COMMITS = ["f8dcf9d"]
+FIX_COMMITS = ["46483d2", "9f39851", "641a06a", "b2abcbe"]
 NOTES = ("Technique family: machine-checked proof in Lean 4 of a hand-written model, tied to /repo on every run by a "
          "differential correspondence check (model at Float vs real code) and exact-arithmetic oracles; see DESIGN.md. "
          "Four genuine defects were repaired with `fix:` commits in /repo (known_findings.json, section fixed).")
@@ -20,3 +21,26 @@ reg("C20",
     "Float (Lean runtime + libm) is assumed to be IEEE binary64 like Rust's f64; agreement is measured by the correspondence.",
     "Lean 4 theorems over a law-free Scalar class + bit-exact differential correspondence",
     "DESIGN.md §3 C20")
+
+reg("C15",
+    "Lean theorems at the reference instantiation alpha:=R, for EVERY dimension n: under the explicit hypothesis "
+    "PivotsPos (all Cholesky pivots positive; non-vacuity example proved) and symmetry, the model of "
+    "decompose_for_tropical returns Ok with q_transposed^T q_transposed = A (upper triangular, positive diagonal), "
+    "q_transposed_inverse q_transposed = 1 (nilpotent-series inverse proved via N^n=0 and the geometric sum), "
+    "inverse = A^-1 and determinant = det A; also Ok with the stability test for every tol >= 0. The model at Float "
+    "is compared with the real routine (n=1..8, five SPD families, exact cond <= 1e10) and the real outputs are "
+    "checked against exact rational linear algebra with the property's tolerance 100 n^2 eps cond.",
+    "Rounding error is measured, not proved; PosDef => PivotsPos is classical and not formalised; Float assumed IEEE.",
+    "Lean 4 proof (Mathlib matrices) of the exact-arithmetic model + differential correspondence + exact rational oracle",
+    "DESIGN.md §3 C15")
+
+reg("C16",
+    "Law-free Lean theorems (every Scalar type, hence IEEE f64 incl. NaN/underflow): Ok implies neither the pivot "
+    "product nor the determinant compares equal to zero; a zero pivot product or zero determinant yields ZeroDet for "
+    "any tolerance; with Some(tol) an Ok result satisfies residual <= tol under the scalar's own comparison (so a NaN "
+    "residual is never Ok); the test never changes the returned record; sample returns the MatrixError whenever the "
+    "routine fails and an Ok sample satisfies the residual bound. Correspondence on definite / zero-pivot / indefinite "
+    "/ NaN / ill-conditioned / underflowing matrices x 8 tolerances; exact-rational residual oracle on the real code.",
+    "NaN propagation through + - * sqrt is IEEE behaviour of Float/f64 (assumed); theorems describe the code after fix commits 9f39851, 641a06a.",
+    "Lean 4 law-free theorems + differential correspondence + exact rational oracle",
+    "DESIGN.md §3 C16")
